@@ -115,7 +115,7 @@ class Engine(ExprMixin, CallMixin, StmtMixin, Core):
         params = [a.arg for a in args.posonlyargs + args.args + args.kwonlyargs]
         is_static = any(ast.unparse(d) == "staticmethod" for d in f.decorator_list)
         for i, p in enumerate(params):
-            if i == 0 and self.cls_node is not None and not is_static and p in ("self", "cls") and not t.nested:
+            if i == 0 and self.cls_node is not None and not is_static and p in ("self", "cls") and not t.nested and p not in t.params:
                 if p == "self":
                     ref = V(Obj(self.clsname), "self")
                     st.env["self"] = ref
